@@ -2272,6 +2272,10 @@ class subarray : public const_subarray<T, D, ElementPtr, Layout> {
 	constexpr auto sliced(index first, index last, difference_type stride)      & -> subarray { return sliced(first, last).strided(stride); }
 	constexpr auto sliced(index first, index last, difference_type stride)     && -> subarray { return sliced(first, last).strided(stride); }
 
+	constexpr auto blocked(index first, index last) const& { return static_cast<const_subarray<T, D, ElementPtr, Layout> const&>(*this).sliced(first, last).reindexed(first); }
+	constexpr auto blocked(index first, index last)      & -> subarray { return sliced(first, last).reindexed(first); }
+	constexpr auto blocked(index first, index last)     && -> subarray { return sliced(first, last).reindexed(first); }
+
 	constexpr auto chunked(size_type count) const& { return static_cast<const_subarray<T, D, ElementPtr, Layout> const&>(*this).chunked(count); }
 	BOOST_MULTI_HD constexpr auto chunked(size_type count)  & -> subarray<T, D+1, typename subarray::element_ptr> { return this->chunked_aux_(count); }
 	BOOST_MULTI_HD constexpr auto chunked(size_type count) && -> subarray<T, D+1, typename subarray::element_ptr> { return this->chunked_aux_(count); }
